@@ -44,7 +44,8 @@ def c17_response_step(ctx, v):
 
     def hook(ex_, st, callee, args, dty):
         if re.search(r"(?:^|::)crypto::verify$|^verify$", callee):
-            st.events.append(("verify", callee, args, V))
+            # values at the time of the question (the challenge field is cleared later in the same body)
+            st.events.append(("verify", callee, [ex_.copy_value(ex_.deref_value(x)) if isinstance(x, S.Ref) else x for x in args], V))
             return V
         if re.search(r"(?:^|::)crypto::sign$|^sign$", callee):
             return ex_.fresh_value("[u8; 64]", "signature!%d" % next(ex_.fresh_counter))
